@@ -787,6 +787,7 @@ impl Ctx {
         let mut prev_unused = true;
         let mut done_all = true;
         let mut atrace = String::new();
+        let mut drain_mark: Option<(i64, usize)> = None;
         while calls < 400000 {
             let it = sc.at(calls);
             let end = in_off.saturating_add(it[0] as usize).min(input.len());
@@ -823,6 +824,23 @@ impl Ctx {
             // left output space to spare
             if (1..=3).contains(&fl) && prev_unused && ic == chunk.len() && oc < ob.len() && marks.len() < 400 {
                 marks.push_str(&format!("{}:{}:{};", fl, in_off, out.len()));
+                drain_mark = None;
+            } else if (1..=3).contains(&fl) && prev_unused && ic == chunk.len() && oc == ob.len() {
+                // the flush may still have output pending: the flush point is reached when a later call, taking no
+                // input, leaves output space to spare
+                drain_mark = Some((fl, in_off));
+            } else if let Some((f0, i0)) = drain_mark {
+                if ic == 0 && in_off == i0 && fl == f0 {
+                    if oc < ob.len() {
+                        if marks.len() < 400 {
+                            // (a candidate only: fl + 10 tells the evaluator that the flush call itself ran out of space)
+                            marks.push_str(&format!("{}:{}:{};", f0 + 10, i0, out.len()));
+                        }
+                        drain_mark = None;
+                    }
+                } else {
+                    drain_mark = None;
+                }
             }
             prev_unused = oc < ob.len();
             if last == 1 || last < 0 && !(stream && last == -5) {
